@@ -8,7 +8,110 @@ RULE = ('call histories: random sequences of parse/split/format/parsestream(aban
         'process; first-call scenarios in fresh subprocesses where the first call fails (recursion limit close to the depth of the call); controlled schedules of 2-4 threads making the first calls, '
         'paused inside the initialisation steps and released in every order; concurrent soak compared with sequential results; non-trivial = distinct history / schedule')
 ASSUMPTIONS = ['statement-level interleaving (GIL); filter objects are created per call (checked by the history runs)']
-PARTIAL = ['API calls do not write the lexer configuration: by construction of the model, sampled on the real code by histories']
+PARTIAL = ['API calls do not write the lexer configuration or other shared state: a syntactic confinement check of the whole package on every run (writes to module/class state and to the Lexer singleton only inside its configuration methods and get_default_instance; no call of a configuration method from the API) + call histories on the real code']
+
+CONFIG_METHODS = {'default_initialization', 'clear', 'set_SQL_REGEX', 'add_keywords'}
+ALLOWED_WRITES = {('sqlparse/lexer.py', 'get_default_instance', 'writes cls._default_instance')} | \
+    {('sqlparse/lexer.py', m, None) for m in CONFIG_METHODS}
+
+MUT={'append','extend','insert','remove','pop','clear','update','setdefault','add','discard','sort','reverse','popitem','__setitem__'}
+def shared_state_writes(repo):
+    """every place inside a function of the sqlparse package that writes state shared between calls: module-level names, class
+    attributes (`cls.x`), `global`, and attributes of the Lexer singleton (`self.x` inside class Lexer)"""
+    import ast
+    out=[]
+    for root,_,files in os.walk(os.path.join(repo,'sqlparse')):
+        for fn in files:
+            if not fn.endswith('.py'): continue
+            path=os.path.join(root,fn); rel=os.path.relpath(path,repo)
+            tree=ast.parse(open(path).read())
+            modnames=set()
+            for n in tree.body:
+                if isinstance(n,(ast.Assign,ast.AnnAssign)):
+                    for t in (n.targets if isinstance(n,ast.Assign) else [n.target]):
+                        for s in ast.walk(t):
+                            if isinstance(s,ast.Name): modnames.add(s.id)
+                elif isinstance(n,(ast.Import,ast.ImportFrom)):
+                    for a in n.names: modnames.add((a.asname or a.name).split('.')[0])
+                elif isinstance(n,(ast.ClassDef,ast.FunctionDef)): modnames.add(n.name)
+            def root_name(e):
+                while isinstance(e,(ast.Attribute,ast.Subscript)): e=e.value
+                return e.id if isinstance(e,ast.Name) else None
+            class V(ast.NodeVisitor):
+                def __init__(s): s.fn=[]; s.locals=[set()]; s.cls=[]
+                def visit_FunctionDef(s,n):
+                    s.fn.append(n.name)
+                    loc=set(a.arg for a in n.args.args+n.args.kwonlyargs)
+                    if n.args.vararg: loc.add(n.args.vararg.arg)
+                    if n.args.kwarg: loc.add(n.args.kwarg.arg)
+                    for x in ast.walk(n):
+                        if isinstance(x,ast.Name) and isinstance(x.ctx,ast.Store): loc.add(x.id)
+                    s.locals.append(loc)
+                    s.generic_visit(n); s.fn.pop(); s.locals.pop()
+                visit_AsyncFunctionDef=visit_FunctionDef
+                def visit_ClassDef(s,n):
+                    s.cls.append(n.name); s.generic_visit(n); s.cls.pop()
+                def shared(s,name):
+                    if name == 'self' and s.cls and s.cls[-1] == 'Lexer':
+                        return True
+                    return name in ('cls',) or (name in modnames and name not in s.locals[-1])
+                def visit_Global(s,n): out.append((rel,n.lineno,'.'.join(s.fn),'global '+','.join(n.names)))
+                def tgt(s,t,n):
+                    if isinstance(t,(ast.Attribute,ast.Subscript)) and s.fn:
+                        r=root_name(t)
+                        if r and s.shared(r): out.append((rel,n.lineno,'.'.join(s.fn),'writes '+ast.unparse(t)))
+                def visit_Assign(s,n):
+                    for t in n.targets: s.tgt(t,n)
+                    s.generic_visit(n)
+                def visit_AugAssign(s,n): s.tgt(n.target,n); s.generic_visit(n)
+                def visit_Delete(s,n):
+                    for t in n.targets: s.tgt(t,n)
+                    s.generic_visit(n)
+                def visit_Call(s,n):
+                    f=n.func
+                    if isinstance(f,ast.Attribute) and f.attr in MUT and s.fn:
+                        r=root_name(f.value)
+                        if r and s.shared(r): out.append((rel,n.lineno,'.'.join(s.fn),'calls '+ast.unparse(f)))
+                    if isinstance(f,ast.Name) and f.id=='setattr' and s.fn and n.args:
+                        r=root_name(n.args[0])
+                        if r and s.shared(r): out.append((rel,n.lineno,'.'.join(s.fn),'setattr '+ast.unparse(n.args[0])))
+                    s.generic_visit(n)
+            V().visit(tree)
+    return out
+
+
+def config_calls(repo):
+    """calls of the lexer configuration methods from inside the package (the API must not reconfigure the shared lexer)"""
+    import ast
+    out = []
+    for root, _, files in os.walk(os.path.join(repo, 'sqlparse')):
+        for fn in files:
+            if fn.endswith('.py'):
+                path = os.path.join(root, fn)
+                tree = ast.parse(open(path).read())
+                for f in ast.walk(tree):
+                    if isinstance(f, (ast.FunctionDef, ast.AsyncFunctionDef)):
+                        for n in ast.walk(f):
+                            if isinstance(n, ast.Call) and isinstance(n.func, ast.Attribute) and n.func.attr in CONFIG_METHODS:
+                                out.append((os.path.relpath(path, repo), f.name, n.func.attr))
+    return out
+
+
+def confinement(ctx):
+    """the model's premise 'API calls do not write lexer configuration or any other shared state', checked syntactically on every run"""
+    writes = shared_state_writes(REPO)
+    bad = []
+    for rel, line, fn, what in writes:
+        leaf = fn.split('.')[-1]
+        if (rel, leaf, what) in ALLOWED_WRITES or (rel, leaf, None) in ALLOWED_WRITES:
+            continue
+        bad.append('%s:%d %s %s' % (rel, line, fn, what))
+    calls = [c for c in config_calls(REPO) if not (c[0] == 'sqlparse/lexer.py' and (c[1] in CONFIG_METHODS or (c[1] == 'get_default_instance' and c[2] == 'default_initialization')))]
+    bad += ['%s %s calls %s' % c for c in calls]
+    ctx.meta['shared_state'] = {'writes_found': len(writes), 'unexpected': bad}
+    if bad:
+        ctx.broken.append(('confinement:shared-state', '; '.join(bad[:5])))
+
 
 PROBES = ["select a, b from t where x = 1; select 2", "create table t (a int); insert into t values (1)", "SELECT foo FROM bar -- c\n; x"]
 
@@ -228,6 +331,7 @@ def soak(ctx):
 
 
 def run(ctx):
+    confinement(ctx)
     first_call_scenarios(ctx)
     history_runs(ctx)
     schedule_runs(ctx)
